@@ -7,6 +7,7 @@ oracle table; implementation: the real helpers through harness vh_gen.
 Streams
   gen.trusted   additions (with hints) / removals (ids and coins, in order), recovered coin spends, coin spends with
                 conditions, lookup of every removed coin: model against implementation, on accepted AND rejected generators
+  gen.rebuild   solution_generator over the recovered coin spends (reversed and in order; length + FNV of the program)
   gen.sbadd     SpendBundle::additions on the recovered coin spends (cases run with dialect flags 0)
   gen.oracle09  the property on the implementation alone: for every generator run_block_generator2 accepts, helper
                 removals/additions/hints = the validated OwnedSpendBundleConditions, the recovered coin spends rebuild
@@ -126,6 +127,23 @@ def run_trusted(rep, cases, have_model):
     return impl
 
 
+def run_rebuild(rep, cases, have_model):
+    """solution_generator over the recovered coin spends (reversed = same spend order, and in order): mirror vs implementation"""
+    lines = ["gen.rebuild %d %s %s %s %s" % (c["flags"], G.hexo(c["program"]), G.refs_tok(c["refs"]), c["keys_tok"], c["table_tok"]) for c in cases]
+    impl = G.vh(lines)
+    model = G.vrun(lines) if have_model else [None] * len(lines)
+    st = rep.streams.setdefault("gen.rebuild", {"cases": 0, "disagreements": 0})
+    for c, i, m in zip(cases, impl, model):
+        rep.nontrivial.add(("gen.rebuild", c["kind"], i.startswith("rev=ERR") or i.startswith("ERR"), i.split(".")[0][-3:]))
+        if have_model:
+            rep.evaluations += 1
+            st["cases"] += 1
+            if i != m:
+                st["disagreements"] += 1
+                rep.add_failure("gen.rebuild", G.base_line(c), i[:600], (m or "")[:600],
+                                "solution_generator over the recovered coin spends deviates from its mirror")
+
+
 def run_sbadd(rep, cases, have_model):
     sel = [c for c in cases if not (c["flags"] & G.CLVM_MASK)]
     if not sel:
@@ -156,7 +174,7 @@ def oracle(rep, cases):
     from collections import Counter
     cl = Counter()
     for l, o in zip(lines, outs):
-        cl[" ".join(o.split(" ")[:2]) + ("" if "pending-class" not in o else " " + o.split(" ")[-1])] += 1
+        cl[" ".join(o.split(" ")[:2]) + ("" if " note=" not in o else " " + o.split(" ")[-1])] += 1
         if not o.startswith("OK"):
             rep.add_failure("gen.oracle09", l, o, "OK", "a trusted helper reports something else than full validation on this accepted block "
                                                         "(property C09 on the implementation)")
@@ -259,6 +277,7 @@ def run(ctx):
             (impl_only if big else cases).append({"program": prog, "refs": refs, "flags": fl, "max_cost": G.BLOCK, "kind": "file",
                                                    "tags": [("file", name)]})
     run_trusted(rep, cases, ctx["have_model"])
+    run_rebuild(rep, cases, ctx["have_model"])
     run_sbadd(rep, cases, ctx["have_model"])
     oracle(rep, cases + impl_only)
     rep.streams["gen.oracle09"]["implementation_only_files"] = sorted({t[1] for c in impl_only for t in c["tags"]})
